@@ -47,8 +47,9 @@ RootOf(nodes, x) == LET n == N(nodes, x) IN
 \* two attributes have "the same qualified name"
 SameAttrName(a, b) == a.ns = b.ns /\ a.local = b.local
 AttrsDistinct(attrs) == \A i, j \in DOMAIN attrs : SameAttrName(attrs[i], attrs[j]) => i = j
-\* C05 speaks of the qualified name (prefix:local).  For HTML parses the two notions coincide (only the adjusted
-\* foreign attributes carry a prefix); the XML tree builder can hand over x and z:x with z unbound
+\* C05 speaks of "the same qualified name".  Both readings are judged: no two attributes with the same prefix:local
+\* (QNamesDistinct) and no two with the same namespace + local name (AttrsDistinct).  For HTML parses they coincide
+\* (only the adjusted foreign attributes carry a prefix); for XML the second is what the tree builder de-duplicates by
 SameQualifiedName(a, b) == a.prefix = b.prefix /\ a.local = b.local
 QNamesDistinct(attrs) == \A i, j \in DOMAIN attrs : SameQualifiedName(attrs[i], attrs[j]) => i = j
 
